@@ -172,8 +172,9 @@ def run_send(cfg, dec):
 
 
 def nz(v):
+    """truthiness of a flag that may be a bool or a count"""
     if isinstance(v, z3.ExprRef):
-        return (v != 0) if z3.is_int(v) else v
+        return (v != 0) if (z3.is_int(v) or z3.is_real(v)) else v
     return z3.BoolVal(bool(v))
 
 
@@ -210,7 +211,7 @@ def send_obligations(ex, R):
         O('C04.removal: OOB changes no client record', all(mid['clients'].get(k) is c for k, c in pre.items()) and len(mid['clients']) == len(pre))
     if cfg['kind'] == 'request' and w in mid['clients']:
         cw = mid['clients'][w]
-        O('C04.one_publish_per_request: processing a request marks exactly the requesting client', cw.requested is True)
+        O('C04.one_publish_per_request: processing a request marks exactly the requesting client', nz(cw.requested))
         O('C04.removal: t_last of the requesting client is refreshed', isinstance(cw.t_last, z3.ExprRef) and not any(cw.t_last is c.t_last for c in pre.values()))
         if w == 'new':
             O('C03.handshake: a new client enters the table only through a request that does not carry `new`', z3.Not(req['new']))
@@ -218,7 +219,7 @@ def send_obligations(ex, R):
         O('C03.handshake: a `new` request from an unknown client is answered with HELLO only', zb(req['new']))
     if R['r1'] is True and cfg['kind'] == 'request' and w in mid['clients'] and not cfg['balance']:
         cl = mid['clients']
-        gate = z3.And(*[z3.Or(zb(c.requested), nz(c.ephemeral)) for c in cl.values()])
+        gate = z3.And(*[z3.Or(nz(c.requested), nz(c.ephemeral)) for c in cl.values()])
         tracked_ids = {c.client_id for c in list(cl.values()) + [c for k, c in pre.items() if k not in cl]}    # outs_required is evaluated before timeout pruning
         req_ok = all(r in tracked_ids for r in cfg['required'])
         O('C03.gate/C05.no_gate: do_send == (every required output tracked) and (every NON-ephemeral client has requested)',
@@ -260,9 +261,9 @@ def send_obligations(ex, R):
             after = me.f['clients'][cid]
             included = (not cfg['balance']) or any(c.pull is R['pulls'][i] for i in chosen)
             if included:
-                O(f'C04.one_publish_per_request: the mark of {cid} is cleared by the publish that includes it', after.requested is False)
+                O(f'C04.one_publish_per_request: the mark of {cid} is cleared by the publish that includes it (one publish per request, no banked credit)', z3.Not(nz(after.requested)))
                 if not cfg['push']:
-                    O(f'C04.one_publish_per_request: non-ephemeral {cid} had requested before this publish', z3.Or(nz(c.ephemeral), zb(c.requested)))
+                    O(f'C04.one_publish_per_request: non-ephemeral {cid} had requested before this publish', z3.Or(nz(c.ephemeral), nz(c.requested)))
             else:
                 O(f'C07.one_branch: client {cid} of another output keeps its mark', after is c)
         if cfg['tm'] != 'dict':
@@ -300,6 +301,14 @@ class SendUnit(Unit):
 
     def shapes(self, tier):
         return cfg_list(tier)
+
+    def replay(self, failure):
+        import logging
+        logging.disable(logging.CRITICAL)
+        from replay_drivers import sender_history
+        r = sender_history.search(400, 0)
+        r['required'] = 'a synchronized client is never sent more frames than it requested; ids strictly increase; a balanced send uses one PUB socket'
+        return r
 
     def run(self, shape, dec):
         ex, R = run_send(shape, dec)
